@@ -76,6 +76,32 @@ strip_np(struct lyd_node *t)
     }
 }
 
+/* two equal instances of a keyed list / configuration leaf-list among some siblings (see Diff/Apply.lean: hasDupInst) */
+static int
+has_dup_inst(const struct lyd_node *first)
+{
+    const struct lyd_node *a, *b;
+
+    LY_LIST_FOR(first, a) {
+        if (a->schema && (a->schema->nodetype & (LYS_LIST | LYS_LEAFLIST)) && !lysc_is_dup_inst_list(a->schema)) {
+            for (b = a->next; b && (b->schema == a->schema); b = b->next) {
+                if (!lyd_compare_single(a, b, 0)) return 1;
+            }
+        }
+        if (has_dup_inst(lyd_child(a))) return 1;
+    }
+    return 0;
+}
+
+static unsigned
+nprev(const struct lyd_node *n)
+{
+    unsigned k = 0;
+
+    for ( ; n && n->prev->next; n = n->prev) ++k;
+    return k;
+}
+
 static int
 same(const struct lyd_node *a, const struct lyd_node *b, int dflt)
 {
@@ -155,6 +181,7 @@ op_law(const char *id, const struct tp_schema *s, const char *atok, const char *
     r = lyd_diff_siblings(A, B, o, &d);
     fprintf(stdout, " diff=%s", tp_errname(r));
     if (r) goto out;
+    fprintf(stdout, " ptr=%u", nprev(d));
     r = lyd_diff_siblings(A, A, o, &e);
     fprintf(stdout, " selfA=%s", r ? tp_errname(r) : (e ? "nonempty" : "empty"));
     lyd_free_all(e); e = NULL;
@@ -176,7 +203,7 @@ op_law(const char *id, const struct tp_schema *s, const char *atok, const char *
         r1 = dumps_nonew(s, A2);
         bn = dumps_nonew(s, B);
         fprintf(stdout, " exact=%d", !strcmp(r1, bn));
-        if (!dflt) lyd_validate_module(&A2, s->mod, 0, NULL);
+        if (!dflt) fprintf(stdout, " reval=%s", lyd_validate_module(&A2, s->mod, 0, NULL) ? "err" : "ok");
         fprintf(stdout, " cmp=%d", same(A2, B, dflt));
         if (!dflt) {
             free(r1);
@@ -188,8 +215,8 @@ op_law(const char *id, const struct tp_schema *s, const char *atok, const char *
     lyd_free_all(A); A = NULL;
     lyd_free_all(B); B = NULL;
     lyd_free_all(A2); A2 = NULL;
-    vx = via_format(s, a0, b0, d, LYD_XML, LYD_PRINT_SHRINK | LYD_PRINT_WD_IMPL_TAG, dflt);
-    vj = via_format(s, a0, b0, d, LYD_JSON, LYD_PRINT_SHRINK | LYD_PRINT_WD_IMPL_TAG, dflt);
+    vx = via_format(s, a0, b0, d, LYD_XML, LYD_PRINT_SHRINK | LYD_PRINT_KEEPEMPTYCONT | LYD_PRINT_WD_IMPL_TAG, dflt);
+    vj = via_format(s, a0, b0, d, LYD_JSON, LYD_PRINT_SHRINK | LYD_PRINT_KEEPEMPTYCONT | LYD_PRINT_WD_IMPL_TAG, dflt);
     vl = via_format(s, a0, b0, d, LYD_LYB, 0, dflt);
     fprintf(stdout, " xml=%s json=%s lyb=%s", vx, vj, vl);
 out:
@@ -247,6 +274,7 @@ main(void)
             if (!text || tp_load(s, text, 0, &t)) {
                 vp_reply(id, "err BadTree");
             } else if (lyd_validate_module(&t, s->mod, 0, NULL)) {
+                dbgmsg(s, "build");
                 vp_reply(id, "err Invalid");
             } else {
                 vp_begin(id, "ok"); tp_field_dump(s, t); vp_end();
@@ -263,7 +291,8 @@ main(void)
             if (rc) {
                 vp_reply(id, "err %s", tp_errname(rc));
             } else {
-                vp_begin(id, "ok"); tp_field_dump(s, d); vp_end();
+                /* second field: how many siblings precede the node lyd_diff_siblings() returned (0 = it is the first one) */
+                vp_begin(id, "ok"); tp_field_dump(s, d); vp_field_u(nprev(d)); vp_end();
             }
             lyd_free_all(d); lyd_free_all(A); lyd_free_all(B);
         } else if ((!strcmp(op, "diffapply") && r.ntok == 7) || (!strcmp(op, "apply3") && r.ntok == 8)) {
@@ -287,6 +316,8 @@ main(void)
             if (rc) dbgmsg(s, op);
             if (rc) {
                 vp_reply(id, "err %s", tp_errname(rc));
+            } else if (has_dup_inst(C)) {
+                vp_reply(id, "ok DupInstances");
             } else {
                 strip_np(C);
                 vp_begin(id, "ok"); tp_field_dump(s, C); vp_end();
